@@ -175,6 +175,8 @@ def g_gmm(draw):
             "variances_unset_floors": unset,
             "K": gen.integer(draw, 1, 6), "count_floor": gen.choice(draw, [EPS, 1e-6, 1e-3]),
             "relevance": float(10.0 ** gen.integer(draw, -3, 3)), "dask": gen.boolean(draw),
+            # MAP with fixed ratios: one scalar, or one ratio per component (an array)
+            "map_alpha": gen.choice(draw, [None, None, "scalar", "array"]), "alpha_values": r.uniform(0.05, 0.95, C),
             "chunks": gen.composition(draw, X.shape[0], max_parts=4)}
 
 
@@ -202,10 +204,16 @@ def c_gmm(ctx, case):
         g = sut.make_gmm(init, trainer="ml", **kw)
     else:
         ubm = sut.make_gmm(init)
-        g = sut.GMMMachine(n_gaussians=init["C"], trainer="map", ubm=ubm, map_relevance_factor=case["relevance"], **kw)
+        mk = dict(map_relevance_factor=case["relevance"])
+        if case.get("map_alpha") == "scalar":
+            mk = dict(map_relevance_factor=None, map_alpha=float(case["alpha_values"][0]))
+        elif case.get("map_alpha") == "array":
+            mk = dict(map_relevance_factor=None, map_alpha=np.array(case["alpha_values"], dtype=float))
+        g = sut.GMMMachine(n_gaussians=init["C"], trainer="map", ubm=ubm, **mk, **kw)
     s = ref.gmm_stats(X, init["weights"], init["means"], init["variances"])
     low = bool((s["n"] < 1e-6).any())
     ctx.note(low or n_distinct(X) < init["C"] or "const_col" in case["kinds"], "trainer:" + case["trainer"],
+             ("map-ratio:" + case["map_alpha"]) if (case["trainer"] == "map" and case.get("map_alpha")) else None,
              "upd:%d%d%d" % tuple(int(u) for u in upd), "starved-component" if low else None,
              "distinct<C" if n_distinct(X) < init["C"] else None, "floor:" + init["floor_kind"],
              "dask" if case["dask"] else "numpy", *["data:" + s_ for s_ in case["kinds"]])
